@@ -225,7 +225,7 @@ PROPS = {
     ),
     "C15": dict(
         modules=["GeomVerif.Properties.C15", "GeomVerif.Properties.C15Seg"],
-        n_quick=30000, n_thorough=400000, thorough_seeds=4, min_theorems=9,
+        n_quick=30000, n_thorough=400000, thorough_seeds=4, min_theorems=10,
         rule="points and segments on integer grids 3/5/12/1000/2^20 in 2D and 3D: random, parallel, collinear, touching at an endpoint, zero-length "
              "first or second segment, segment parallel to the last axis; ops DistanceFromPointToLine, PerpendicularDistanceFromPointToLine (distinct "
              "points), DistanceFromPointToLineString (stride 2..4, 1..6 vertices, arbitrary extra ordinates), DistanceFromLineToLine, "
